@@ -36,7 +36,7 @@ import (
 )
 
 type txOp struct {
-	Op   string `json:"op"` // put | approve | xfer
+	Op   string `json:"op"` // put | approve | xfer | evminvoke | getparam | regid
 	K    string `json:"k,omitempty"`
 	V    string `json:"v,omitempty"`
 	Tok  string `json:"tok,omitempty"`
@@ -252,6 +252,39 @@ func (t *txWorld) buildScript(d *txDesc) (code []byte, known bool, w [][]string,
 			} else {
 				known = false // other transfers (ONT moves unbound offsets etc.) are not described to the model
 			}
+		case "evminvoke":
+			// system.evmInvoke(caller = payer (a signer), target = an account without code, input): a successful EVM call
+			// that writes nothing itself; described to the model (no writes of its own)
+			type evmInvokeArgs struct {
+				Caller common.Address
+				Target common.Address
+				Input  []byte
+			}
+			caller := d.Payer
+			if op.From != "" {
+				caller = op.From
+			}
+			piece, err := cutils.BuildNativeInvokeCode(utils.SystemContractAddress, 0, "evmInvoke",
+				[]interface{}{evmInvokeArgs{Caller: t.addrOf(caller), Target: common.Address{0xaa, 0xbb, 0xcc, 0xdd, byte(t.group)}, Input: []byte{1}}})
+			vhMust(err)
+			buf.Write(piece)
+		case "getparam":
+			// global_params.getGlobalParam(["gasPrice"]): a read-only native call; described (no writes)
+			piece, err := cutils.BuildNativeInvokeCode(utils.ParamContractAddress, 0, "getGlobalParam", []interface{}{[]interface{}{"gasPrice"}})
+			vhMust(err)
+			buf.Write(piece)
+		case "regid":
+			// ontid.regIDWithPublicKey(did:ont:<payer>, payer's key): writes several ONT ID entries; not described (opaque)
+			type regArgs struct {
+				ID []byte
+				PK []byte
+			}
+			acc := t.roles[d.Payer]
+			piece, err := cutils.BuildNativeInvokeCode(utils.OntIDContractAddress, 0, "regIDWithPublicKey",
+				[]interface{}{regArgs{ID: []byte("did:ont:" + acc.Address.ToBase58()), PK: keypair.SerializePublicKey(acc.PublicKey)}})
+			vhMust(err)
+			buf.Write(piece)
+			known = false
 		default:
 			panic("unknown op " + op.Op)
 		}
